@@ -234,7 +234,7 @@ func c02WhoMayCall(p *Prog, r *Result, f *Flow, prefix string) {
 // c02KeyWriters enumerates every store to SessionCrypter.SEK / SVK.
 func c02KeyWriters(p *Prog, r *Result) {
 	rule := "C02.key-writers"
-	r.rule(rule, "every store to SessionCrypter.SEK/SVK is (a) an empty literal in a constructor registered with RegisterKeyExchangeSuite, (b) a value derived from nistkdf.KDF inside a Parameter/SetParameter method, or (c) a decoded value inside UnmarshalCBOR")
+	r.rule(rule, "every store to SessionCrypter.SEK/SVK is (a) an empty literal in a constructor registered with RegisterKeyExchangeSuite or into a freshly allocated session, (b) a value derived from nistkdf.KDF inside a Parameter/SetParameter method, or (c) a decoded value inside UnmarshalCBOR")
 	r.floor(rule, 12)
 	// constructors registered
 	ctors := map[*ssa.Function]bool{}
@@ -292,6 +292,11 @@ func c02KeyWriters(p *Prog, r *Result) {
 					ok2 = pv.Has("decoded:")
 				default:
 					class = "unlisted writer"
+					// construction of a new session with empty keys (a helper
+					// of the registered constructors)
+					if _, fresh := rootOf(fa).(*ssa.Alloc); fresh && isEmptySlice(st.Val) {
+						class, ok2 = "empty keys in a freshly constructed session", true
+					}
 				}
 				r.table(p, rule, fmt.Sprintf("%s store #%d to %s", p.FuncName(fn), k, fld), p.instrPos(in), ok2, class+"; value provenance: "+joinMax(pv.List(), 6))
 			}
